@@ -2,6 +2,7 @@ import Driver.Proto
 import Driver.Select
 import Driver.Multi
 import Driver.Grid
+import PvModel.Labels
 /-!
 # Model driver: one JSON request per line on stdin → one canonical JSON answer per line on stdout.
 -/
@@ -37,6 +38,17 @@ def handleVars (op : String) (j : Json) : Except String Json := do
       | .perm n => Json.mkObj [("k", "perm"), ("n", rNat n)]) d.children)
   | _ => err s!"unknown op {op}"
 
+def handleLabel (op : String) (j : Json) : Except String Json := do
+  let e : Encoder Nat := ⟨← getNats (← field j "labels")⟩
+  match op with
+  | "label.transform" =>
+    let y ← getNats (← field j "y")
+    .ok (match e.transform y with | some is => rList rNat is | none => Json.mkObj [("err", "KeyError")])
+  | "label.inverse" =>
+    let is ← getNats (← field j "y")
+    .ok (rList (fun (o : Option Nat) => match o with | some c => rNat c | none => Json.null) (e.inverseTransform is))
+  | _ => err s!"unknown op {op}"
+
 def handleTask (op : String) (j : Json) : Except String Json := do
   let t ← getTask (← field j "task")
   match op with
@@ -69,6 +81,7 @@ def handle (line : String) : String :=
       let op ← getStr (← field j "op")
       if op.startsWith "var." || op.startsWith "decl." then handleVars op j
       else if op.startsWith "task." then handleTask op j
+      else if op.startsWith "label." then handleLabel op j
       else if op.startsWith "multi." then handleMulti op j
       else if op.startsWith "grid." || op.startsWith "tuner." then handleGrid op j
       else if op.startsWith "sel." then handleSel op j
